@@ -387,8 +387,11 @@ impl SubCheck for DroppedTogether {
 				.register_subscription("sub", "item", "unsub", |p, pending, ctx, _| async move {
 					let round: u32 = p.one().unwrap_or(0);
 					let (released, mut go) = (ctx.0.clone(), ctx.1.clone());
+					// (only the subscriptions of a round are counted; the churn's own - round 0 - come and go on the side)
 					let Ok(sink) = pending.accept().await else {
-						released.fetch_add(1, Ordering::SeqCst);
+						if round > 0 {
+							released.fetch_add(1, Ordering::SeqCst);
+						}
 						return;
 					};
 					// hold the sink until the round is told to let go; all handlers of the round wake together
@@ -398,7 +401,9 @@ impl SubCheck for DroppedTogether {
 						}
 					}
 					drop(sink);
-					released.fetch_add(1, Ordering::SeqCst);
+					if round > 0 {
+						released.fetch_add(1, Ordering::SeqCst);
+					}
 				})
 				.map_err(|e| e.to_string())?;
 			let module = Arc::new(module);
